@@ -151,9 +151,35 @@ def Sys.tick (s : Sys) (d : Int) : Sys := { s with now := s.now + d }
 inductive FaultKind | before | after | cancel
 deriving DecidableEq, Repr, Inhabited
 
+/-- what a user function does when invoked (chosen by the environment) -/
+inductive Outcome
+  | ret (next : Status) (n : Obj)   -- return status `next` after setting the object to `n`
+  | err (tok : Int)                 -- return an error (message token)
+  | pause                           -- `return r.Pause(ctx, …)`
+  | cancel                          -- `return r.Cancel(ctx, …)`
+  | nested (status : Status)        -- re-enter the API: `Callback(foreignID, status)`, then take the next outcome
+  | timer (sec : Int)               -- timer function: expire at now + sec
+  | zero                            -- timer function: zero time
+  | zeroErr                         -- timer function: zero time and an error
+  | ok                              -- hook / custom delete: success
+  | exhausted                       -- no outcome left: behaves as an error
+deriving Repr, Inhabited, DecidableEq
+
+def Outcome.str : Outcome → String
+  | .ret a b => s!"r:{a}:{b}"
+  | .err k => s!"e:{k}"
+  | .pause => "p"
+  | .cancel => "c"
+  | .nested a => s!"n:{a}"
+  | .timer a => s!"t:{a}"
+  | .zero => "z"
+  | .zeroErr => "ze"
+  | .ok => "k"
+  | .exhausted => "x"
+
 structure Env where
   faults : List (Nat × FaultKind) := []
-  outcomes : List String := []
+  outcomes : List Outcome := []
   stale : Nat := 0
 deriving Repr, Inhabited
 
@@ -183,6 +209,7 @@ instance : Monad M where
 def getSys : M Sys := fun _ st => (.ok st.sys, st)
 def modifySys (f : Sys → Sys) : M Unit := fun _ st => (.ok (), { st with sys := f st.sys })
 def emit (l : String) : M Unit := fun _ st => (.ok (), { st with obs := l :: st.obs })
+def emitIf (c : Bool) (l : String) : M Unit := fun _ st => (.ok (), if c then { st with obs := l :: st.obs } else st)
 def throwA {α} (a : Abort) : M α := fun _ st => (.error a, st)
 /-- run `m`, catching an abort (the Go code inspects the error and carries on) -/
 def tryM {α} (m : M α) : M (Except Abort α) := fun env st =>
@@ -193,8 +220,8 @@ def tryM {α} (m : M α) : M (Except Abort α) := fun env st =>
 def injectedTok : Int := 100
 def cancelledTok : Int := 101
 
-def nextOutcome : M String := fun env st =>
-  (.ok ((env.outcomes[st.outI]?).getD "x"), { st with outI := st.outI + 1 })
+def nextOutcome : M Outcome := fun env st =>
+  (.ok ((env.outcomes[st.outI]?).getD .exhausted), { st with outI := st.outI + 1 })
 
 /-- One adapter call. `label` is printed; `eff` computes the result rendering, the value and the new `Sys`.
 Context honouring: after a cancel every further call fails without effect. -/
@@ -202,18 +229,17 @@ def call {α} (label : String) (eff : Sys → (String × Except Abort α × Sys)
   if st.cancelled then
     (.error .cancelled, { st with obs := (label ++ "~") :: st.obs })
   else
-    let k := st.callN
-    let st := { st with callN := k + 1 }
-    match env.faults.lookup k with
-    | some .before => (.error (.err injectedTok), { st with obs := (label ++ "!b") :: st.obs })
+    match env.faults.lookup st.callN with
+    | some .before =>
+      (.error (.err injectedTok), { st with callN := st.callN + 1, obs := (label ++ "!b") :: st.obs })
     | some .after =>
-      let (res, _, sys') := eff st.sys
-      (.error (.err injectedTok), { st with sys := sys', obs := (label ++ res ++ "!a") :: st.obs })
+      (.error (.err injectedTok),
+        { st with callN := st.callN + 1, sys := (eff st.sys).2.2, obs := (label ++ (eff st.sys).1 ++ "!a") :: st.obs })
     | some .cancel =>
-      (.error .cancelled, { st with obs := (label ++ "!c") :: st.obs, cancelled := !st.isApi })
+      (.error .cancelled, { st with callN := st.callN + 1, obs := (label ++ "!c") :: st.obs, cancelled := !st.isApi })
     | none =>
-      let (res, v, sys') := eff st.sys
-      (v, { st with sys := sys', obs := (label ++ res) :: st.obs })
+      ((eff st.sys).2.1,
+        { st with callN := st.callN + 1, sys := (eff st.sys).2.2, obs := (label ++ (eff st.sys).1) :: st.obs })
 
 /-! ## rendering -/
 
@@ -227,24 +253,27 @@ def evStr (i : Nat) (e : Event) : String := s!"e{i}:{topicStr e},r{e.runId},v{e.
 
 /-! ## adapter calls -/
 
-/-- `Lookup`: the current record, or (stale read) the version `stale` writes back -/
-def lookup (rid : RunId) : M (Option Rec) := fun env st =>
-  let staleN := st.stale
-  (call "lookup" (fun s =>
-    match s.runs[rid]? with
-    | none => ("(nf)", .ok none, s)
-    | some run =>
-      let i := if staleN < run.hist.length then staleN else run.hist.length - 1
-      match run.hist[i]? with
-      | none => ("(nf)", .ok none, s)
-      | some r => ("(" ++ recStr r ++ ")" ++ (if i != 0 then "~stale" else ""), .ok (some r), s))) env { st with stale := 0 }
+/-- what `Lookup` answers: the current record, or (stale read) the version `staleN` writes back; with its rendering -/
+def lookupRes (s : Sys) (rid : RunId) (staleN : Nat) : String × Option Rec :=
+  match s.runs[rid]? with
+  | none => ("(nf)", none)
+  | some run =>
+    let i := if staleN < run.hist.length then staleN else run.hist.length - 1
+    match run.hist[i]? with
+    | none => ("(nf)", none)
+    | some r => ("(" ++ recStr r ++ ")" ++ (if i != 0 then "~stale" else ""), some r)
 
-/-- `Latest`: newest created run of the foreign ID -/
+/-- `Lookup` -/
+def lookup (rid : RunId) : M (Option Rec) := fun env st =>
+  (call "lookup" (fun s => ((lookupRes s rid st.stale).1, .ok (lookupRes s rid st.stale).2, s))) env { st with stale := 0 }
+
+/-- what `Latest` answers: the head of the newest created run of the foreign ID -/
+def latestRes (s : Sys) (fid : Fid) : Option Rec := (s.runs.reverse.find? (fun r => r.fid == fid)).bind (·.hist.head?)
+
+/-- `Latest` -/
 def latest (fid : Fid) : M (Option Rec) :=
   call "latest" (fun s =>
-    match (s.runs.reverse.find? (fun r => r.fid == fid)).bind (·.hist.head?) with
-    | none => ("(nf)", .ok none, s)
-    | some r => ("(" ++ recStr r ++ ")", .ok (some r), s))
+    ((match latestRes s fid with | none => "(nf)" | some r => "(" ++ recStr r ++ ")"), .ok (latestRes s fid), s))
 
 def store (cfg : Cfg) (r : Rec) : M Unit :=
   call "store" (fun s =>
@@ -306,33 +335,6 @@ def updater (cfg : Cfg) (current next : Status) (run : Rec) (newObj : Obj) : M U
 
 /-! ## user-function outcomes -/
 
-inductive Outcome
-  | ret (next : Status) (n : Obj)
-  | err (tok : Int)
-  | pause
-  | cancel
-  | nested (status : Status)
-  | timer (sec : Int)
-  | zero
-  | zeroErr
-  | ok
-deriving Repr, Inhabited
-
-def parseOutcome (s : String) : Outcome :=
-  match s.splitOn ":" with
-  | ["r", a, b] => match a.toInt?, b.toInt? with
-    | some x, some y => .ret x y
-    | _, _ => .err 98
-  | ["e", k] => .err (k.toInt?.getD 98)
-  | ["p"] => .pause
-  | ["c"] => .cancel
-  | ["n", a] => .nested (a.toInt?.getD 0)
-  | ["t", a] => .timer (a.toInt?.getD 0)
-  | ["z"] => .zero
-  | ["ze"] => .zeroErr
-  | ["k"] => .ok
-  | _ => .err 98
-
 /-- result of a step / callback / timeout function: `(Status, error)` plus the object it leaves in memory -/
 structure FnRes where
   next : Status
@@ -349,8 +351,8 @@ def runFn (cfg : Cfg) (kind : String) (run mem : Rec) : Nat → Bool → M (Exce
   | 0, _ => pure (.error (.err 99), mem)
   | fuel + 1, first => do
     let out ← nextOutcome
-    if first then emit s!"fn:{kind}({recStr run})->{out}" else emit s!"fn:cont->{out}"
-    match parseOutcome out with
+    if first then emit s!"fn:{kind}({recStr run})->{out.str}" else emit s!"fn:cont->{out.str}"
+    match out with
     | .ret next n => pure (.ok ⟨next, n⟩, mem)
     | .err k => pure (.error (.err k), mem)
     | .pause => do
@@ -444,9 +446,9 @@ def stepHandle (cfg : Cfg) (p : Proc) (status : Status) (pauseAfter : Int) (e : 
 def inserterFn (cfg : Cfg) (status : Status) (run : Rec) : M (Except Abort FnRes × Rec) := do
   let r ← tryM ((cfg.timeoutsAt status).forM (fun _ => do
     let out ← nextOutcome
-    emit s!"fn:timer({recStr run})->{out}"
+    emit s!"fn:timer({recStr run})->{out.str}"
     let s ← getSys
-    match parseOutcome out with
+    match out with
     | .timer sec =>
       call s!"tcreate(r{run.runId},st{status},{s.now + sec})" (fun s => ("", .ok (), s.timerCreate run.fid run.runId status (s.now + sec)))
     | .zero => pure ()
@@ -466,10 +468,11 @@ def hookHandle (_cfg : Cfg) (rs : RunState) (e : Event) : M Unit := do
     if !decodable record.obj then pure ()
     else do
       let out ← nextOutcome
-      emit s!"fn:hook{rs}({recStr record})->{out}"
-      match parseOutcome out with
+      emit s!"fn:hook{rs}({recStr record})->{out.str}"
+      match out with
       | .err k => throwA (.err k)
-      | _ => if out == "x" then throwA (.err 98) else pure ()
+      | .exhausted => throwA (.err 98)
+      | _ => pure ()
 
 def scrub (o : Obj) : Obj := if o > -500000 then -1000000 - o else o
 
@@ -480,10 +483,11 @@ def deleteHandle (cfg : Cfg) (e : Event) : M Unit := do
     let newObj ← if cfg.customDelete then (do
         if !decodable record.obj then throwA (.err 96)
         let out ← nextOutcome
-        emit s!"fn:delete(o{record.obj})->{out}"
-        match parseOutcome out with
+        emit s!"fn:delete(o{record.obj})->{out.str}"
+        match out with
         | .err k => throwA (.err k)
-        | _ => if out == "x" then throwA (.err 98) else pure (scrub record.obj))
+        | .exhausted => throwA (.err 98)
+        | _ => pure (scrub record.obj))
       else pure (-7777777 : Int)
     updateRecord cfg { record with obj := newObj, runState := Gen.RunStateDataDeleted }
 
@@ -576,21 +580,23 @@ def recvOp (cfg : Cfg) (p : Proc) : M PState := do
         deliver cfg p i e
         pure .atRecv
 
+/-- relaying one outbox entry: new sender, send, close the sender, delete the entry -/
+def relayEntry (o : OutE) : M Unit := do
+  call s!"newsender({topicStr o.ev})" (fun s => ("", .ok (), s))
+  let r ← tryM (call "send" (fun s =>
+    ("(" ++ evStr s.log.length { o.ev with createdAt := s.now } ++ s!",t{o.ev.type})", .ok (),
+      s.relaySend { o.ev with createdAt := s.now })))
+  emit "sendclose"
+  match r with
+  | .error a => throwA a
+  | .ok _ => call s!"delout({o.ord})" (fun s => ("", .ok (), s.relayDelete o.ord))
+
 /-- the relay cycle `purgeOutbox` -/
 def relayOp (cfg : Cfg) : M Unit := do
   let batch ← call "listoutbox" (fun s =>
-    let b := s.outbox.take cfg.outboxLimit.toNat
-    ("(" ++ " ".intercalate (b.map (fun o => toString o.ord)) ++ ")", .ok b, s))
-  batch.forM (fun o => do
-    call s!"newsender({topicStr o.ev})" (fun s => ("", .ok (), s))
-    let r ← tryM (call "send" (fun s =>
-      let e := { o.ev with createdAt := s.now }
-      ("(" ++ evStr s.log.length e ++ s!",t{e.type})", .ok (), s.relaySend e)))
-    emit "sendclose"
-    match r with
-    | .error a => throwA a
-    | .ok _ => pure ()
-    call s!"delout({o.ord})" (fun s => ("", .ok (), s.relayDelete o.ord)))
+    ("(" ++ " ".intercalate ((s.outbox.take cfg.outboxLimit.toNat).map (fun o => toString o.ord)) ++ ")",
+      .ok (s.outbox.take cfg.outboxLimit.toNat), s))
+  batch.forM relayEntry
 
 /-- `processTimeout` for one timeout configuration. `shared` is the record the poller read for this timer: it is
 handed to `buildRun` by pointer for EVERY configuration of the status, so the view and any controller mutation
@@ -665,18 +671,16 @@ def isCancelled : M Bool := fun _ st => (.ok st.cancelled, st)
 (by a crash fault or a swallowed cancellation: the loops re-check `ctx.Err()`), go back for the role without back-off -/
 def procOp (cfg : Cfg) (p : Proc) : M Unit := do
   let s ← getSys
-  let ps := s.pstate p
-  let r ← tryM (procBody cfg p ps)
+  let r ← tryM (procBody cfg p (s.pstate p))
   let dead ← isCancelled
   match r, dead with
   | .ok ps', false => modifySys (·.setPState p ps')
   | _, _ => do
     -- a receiver is open if it was open before, or if this operation opened it (needRole: newrecv succeeded)
     let opened ← (fun _ st => (.ok (st.obs.any (fun l => l.startsWith "newrecv(" && l.endsWith ")")), st) : M Bool)
-    if hasReceiver p ps || (isConsumer p && ps == .needRole && opened) then emit "close"
-    let s ← getSys
-    if dead then modifySys (·.setPState p .needRole)
-    else modifySys (·.setPState p (.backoff (s.now + cfg.backoffSec)))
+    emitIf (hasReceiver p (s.pstate p) || (isConsumer p && s.pstate p == .needRole && opened)) "close"
+    let s' ← getSys
+    modifySys (·.setPState p (if dead then .needRole else .backoff (s'.now + cfg.backoffSec)))
 
 /-- lease loss: the role scheduler cancels the context of a parked process -/
 def leaseLossOp (_cfg : Cfg) (p : Proc) : M Unit := do
@@ -789,10 +793,20 @@ def apiOut (r : Except Abort String × OpSt) : StepOut :=
   | (.ok res, st) => ⟨st.sys, st.obs.reverse, res⟩
   | (.error a, st) => ⟨st.sys, st.obs.reverse, errClass a⟩
 
+/-- can the process take a step right now? (something to receive / timer due) -/
+def Sys.enabled (s : Sys) (p : Proc) : Bool :=
+  match s.pstate p with
+  | .needRole => true
+  | .atPoll _ => true
+  | .atRecv => (s.nextIndex p).isSome
+  | .lagWait _ u => decide (u ≤ s.now)
+  | .backoff u => decide (u ≤ s.now)
+
 def stepAct (cfg : Cfg) (s : Sys) : Act → StepOut
   | .step p env =>
-    let (_, st) := runM (procOp cfg p) env s false
-    ⟨st.sys, st.obs.reverse, "-"⟩
+    if s.enabled p then
+      ⟨(runM (procOp cfg p) env s false).2.sys, (runM (procOp cfg p) env s false).2.obs.reverse, "-"⟩
+    else ⟨s, [], "noop"⟩
   | .lease p =>
     let (_, st) := runM (leaseLossOp cfg p) {} s false
     ⟨st.sys, st.obs.reverse, "-"⟩
